@@ -41,7 +41,7 @@ type Field struct {
 	Toks   []Tok
 	Syn    []SynDef
 	Vec    *VecDef
-	Shape  []byte // geo-shape field: the encoded shape (an extra doc value of the document, see PatchShapes)
+	Shape  []byte // geo-shape field: the encoded shape (an extra doc value of the document, Spec.doc_shape)
 }
 type Doc struct {
 	Comps  []Field
@@ -93,6 +93,11 @@ func fieldSx(f Field) sx.V {
 			data[i] = sx.N(uint64(f32bits(x)))
 		}
 		vec = sx.L(sx.I(f.Vec.Dims), sx.S(f.Vec.Sim), sx.S(f.Vec.Opt), sx.List(data))
+	}
+	if f.Shape != nil {
+		// a geo-shape field: an eleventh element carries the encoded shape
+		return sx.L(sx.S(f.Name), sx.Bool(f.Stored), sx.Bool(f.DV), sx.N(uint64(f.Typ)), sx.B(f.Val),
+			sx.Nums(f.AP), sx.N(f.Len), sx.List(toks), sx.List(syns), vec, sx.L(sx.B(f.Shape)))
 	}
 	return sx.L(sx.S(f.Name), sx.Bool(f.Stored), sx.Bool(f.DV), sx.N(uint64(f.Typ)), sx.B(f.Val),
 		sx.Nums(f.AP), sx.N(f.Len), sx.List(toks), sx.List(syns), vec)
